@@ -2,6 +2,8 @@
 Line-protocol driver for C18.
 request : isaff <pkgEco> <pkgName> <pkgVersion> <nAffected> { <eco> <name> <versions|-> <nRanges> { <E|S|O> <events|-> } }
           versions = v.v.v   events = k:v,k:v with k ∈ {i,f,l}
+          a version token v is rank + 100·s: rank (v % 100) in the ecosystem's order, s = 1 for the alternative spelling of
+          that rank (compares equal, different string); explicit `versions` lists are matched by spelling (the token itself)
 reply   : aff=<0|1> wf=<0|1> spec=<0|1>
 `known` ecosystems are 0 (npm), 1 (Maven), 2 (PyPI).
 -/
@@ -13,7 +15,7 @@ def parseEv (s : String) : Option Ev :=
   match s.splitOn ":" with
   | [k, v] =>
     match (if k = "i" then some Kind.intro else if k = "f" then some Kind.fixed else if k = "l" then some Kind.last else none), v.toNat? with
-    | some k, some v => some ⟨k, v⟩
+    | some k, some v => some ⟨k, v % 100⟩    -- version token = rank + 100·(alternative spelling); events are compared: rank only
     | _, _ => none
   | _ => none
 
@@ -49,7 +51,7 @@ def handle (line : String) : String :=
     | some pe, some pn, some pv, some na =>
       match parseAffected na rest with
       | some (vuln, []) =>
-        let p : Pkg := ⟨pe, pn, pv⟩
+        let p : Pkg := ⟨pe, pn, pv % 100, pv⟩
         let wf := vuln.all fun a => a.ranges.all fun r => WF r.events
         s!"aff={boolStr (isAffected known vuln p)} wf={boolStr wf} spec={boolStr (specAffectedB known vuln p)}"
       | _ => "bad-op"
